@@ -36,7 +36,7 @@ M = Monitor(
                             "determinism"]},
     required_events=["decomp.step"],
     assumptions=["SCS accuracy: constraints asserted within 1e-3 of the respective range",
-                 "descent asserted on the hook's loss sequence: loss[k+1] <= loss[k] + 1e-3*loss[k] + 2e-5*||B-baseline||_F (SCS accuracy floor)",
+                 "descent asserted on the hook's loss sequence: loss[k+1] <= loss[k] + 1e-3*loss[k] + 1e-4*||B-baseline||_F (SCS accuracy floor)",
                  "last factor optimal: loss(result) <= loss(oracle optimum) + 2e-3*(1+loss)"],
 )
 
@@ -165,7 +165,7 @@ def chk_case(inp, c):
     if steps:
         seq = [(f["iter"], f["phase"], f["loss"]) for f in steps if f["phase"] in ("X", "P")]
         worst = 0.0
-        floor = 2e-5 * float(np.linalg.norm(B - c0))        # absolute accuracy of the first-order solver (SCS)
+        floor = 1e-4 * (float(np.linalg.norm(B - c0)) + float(np.sqrt(B.size)))   # SCS accuracy: eps_rel*|data| + eps_abs*sqrt(size), eps = 1e-4
         for a, b in zip(seq[:-1], seq[1:]):
             inc = b[2] - a[2]
             allow = 1e-3 * a[2] + floor
